@@ -1,2 +1,239 @@
-(* C06 — proto3 defaults and field presence (work in progress: theorems are added below as they are proved) *)
-From BP Require Import Base.Prelude Model.Types Model.Object Model.Encode Model.C06Obs Spec.C06Wire.
+(* C06 — proto3 defaults and field presence are encoded and recovered correctly.
+
+   Vocabulary (definitions, no proofs):
+     Model/Object.v  Encode.v  Decode.v   the shared mirror of Message (new / construct / setattr / getattr, enc_obj = bytes(m),
+                                          parse), validated against the implementation on every run
+     Model/C06Obs.v   is_set, value_not_none (`m.f is not None`), child_on_wire (serialized_on_wire(m.f)), assign_path
+                      (`m.a.b.x = v`), [here] = what one field contributes to bytes(m), [body] = the loop of dump,
+                      emitted_in = bytes(m) contains the field's contribution and it starts with the field's tag
+     Spec/C06Wire.v   independent of the codec: the record grammar is_record / is_records over Spec/Varint.v's VarintRep,
+                      the executable reader parse_records, fits (wire type table), has_record, last_member,
+                      proto3_default, starts_with_tag, and the presence classes of a field
+                      (implicit_field, optional_like, explicit_field, plain_msg_field, plain_msg)
+     Model/WellFormed.v  wf_schema;  Spec/C06Wire.v std_builtins_b (class table starts with betterproto's own classes)
+
+   from_dict (the fourth way of setting) is modelled by another property; its column of the matrix is checked on the
+   implementation by harness/props/c06.py only.
+   Message.is_set of an implicit-presence field flips after a mere read (DESIGN K4): proto3 gives such a field no presence,
+   so every statement below is about explicit-presence fields (C14 owns observer purity). *)
+From BP Require Import Base.Prelude Model.Types Model.Varint Model.Object Model.Eq Model.Encode Model.Decode.
+From BP Require Import Model.WellFormed Model.C06Obs Model.Canon.
+From BP Require Import Spec.Varint Spec.C06Wire.
+From BP Require Import Proofs.C06SpecP Proofs.C06EncP Proofs.C06PresP Proofs.C06WaysP Proofs.C06FinalP.
+
+(* bytes(m) is the concatenation of one contribution per field, in declaration order, then the unknown bytes;
+   [here sc cur i x f] is the contribution of field i holding raw value x *)
+Theorem C06_bytes_decompose : forall sc c raw sow unk cur,
+  enc_obj sc (Obj c raw sow unk cur) =
+  (do b <- body sc cur 0 raw (cfields (get_class sc c)); Ok (b ++ unk)).
+Proof. exact enc_obj_body. Qed.
+Print Assumptions C06_bytes_decompose.
+
+Theorem C06_field_segment : forall sc c raw sow unk cur i x f bs,
+  nth_error raw i = Some x -> nth_error (cfields (get_class sc c)) i = Some f ->
+  enc_obj sc (Obj c raw sow unk cur) = Ok bs ->
+  exists pre h post, here sc cur i x f = Ok h /\ bs = pre ++ h ++ post.
+Proof. exact enc_obj_split. Qed.
+Print Assumptions C06_field_segment.
+
+(* ---- a fresh message encodes to zero bytes and reads every field as its proto3 default ---- *)
+Theorem C06_fresh : forall sc c,
+  wf_schema sc = true ->
+  enc_obj sc (new sc c) = Ok [] /\
+  forall i f, nth_error (cfields (get_class sc c)) i = Some f -> read sc (new sc c) i = proto3_default sc f.
+Proof. exact fresh. Qed.
+Print Assumptions C06_fresh.
+
+(* ---- an implicit-presence field holding its default is never emitted, whatever the other fields hold:
+        the encoding equals the encoding with that field reset to PLACEHOLDER ---- *)
+Theorem C06_implicit_skip : forall sc c raw sow unk cur i f x,
+  nth_error (cfields (get_class sc c)) i = Some f -> nth_error raw i = Some x ->
+  implicit_field f -> is_default sc f x = true ->
+  (forall enc, emit_field enc sc f None x = Ok []) /\
+  here sc cur i x f = Ok [] /\
+  enc_obj sc (Obj c raw sow unk cur) = enc_obj sc (Obj c (set_nth i PPlaceholder raw) sow unk cur).
+Proof. exact implicit_skip_full. Qed.
+Print Assumptions C06_implicit_skip.
+
+(* ---- an explicit-presence field that holds a value — even its default — contributes a record with its number ---- *)
+(* in any object state: a proto3-optional field, a wrapper field, or the member its oneof group selects *)
+Theorem C06_explicit_emit : forall sc cur i x f bs,
+  1 <= fnum f < 2 ^ 29 -> fmap f = None ->
+  explicit_kind cur i f -> is_value x -> singular_value x ->
+  here sc cur i x f = Ok bs ->
+  starts_with_tag (fnum f) (base_wire_type (fty f)) bs.
+Proof. exact explicit_emit_here. Qed.
+Print Assumptions C06_explicit_emit.
+
+(* way 1, constructor: whatever keyword arguments were given, if the field's attribute holds a value (and, for a oneof
+   member, no later member of its group was given as well: the constructor lets the last one in declaration order win) *)
+Theorem C06_explicit_emit_construct : forall sc c kw i f o,
+  wf_schema sc = true ->
+  nth_error (cfields (get_class sc c)) i = Some f -> explicit_field f ->
+  o = construct sc c kw ->
+  is_value (raw_at o i) -> singular_value (raw_at o i) ->
+  (forall g, fgroup f = Some g ->
+     forall k f', (i < k)%nat -> nth_error (cfields (get_class sc c)) k = Some f' -> fgroup f' = Some g ->
+                  is_sentinel f' (raw_at o k) = true) ->
+  emitted_in sc o i f /\ (forall g, fgroup f = Some g -> which_one_of o g = Some i).
+Proof. exact emit_after_construct. Qed.
+Print Assumptions C06_explicit_emit_construct.
+
+(* way 2, attribute assignment on any object of the right shape: the assigned member becomes the selected one *)
+Theorem C06_explicit_emit_setattr : forall sc o i f v,
+  wf_schema sc = true ->
+  nth_error (cfields (get_class sc (ocls o))) i = Some f ->
+  length (oraw o) = length (cfields (get_class sc (ocls o))) -> length (ocur o) = cngroups (get_class sc (ocls o)) ->
+  explicit_field f -> is_value v -> singular_value v ->
+  emitted_in sc (setattr sc o i v) i f /\
+  (forall g, fgroup f = Some g -> which_one_of (setattr sc o i v) g = Some i).
+Proof. exact emit_after_setattr. Qed.
+Print Assumptions C06_explicit_emit_setattr.
+
+(* way 3, parse: a received optional / wrapper field, and the last received member of a oneof, are re-emitted *)
+Theorem C06_explicit_emit_parse_optional : forall sc c bs rs m j f,
+  wf_schema sc = true -> std_builtins_b sc = true ->
+  is_records rs bs -> parse sc c bs = Ok m ->
+  nth_error (cfields (get_class sc c)) j = Some f -> optional_like f ->
+  has_record f rs = true -> emitted_in sc m j f.
+Proof. exact emit_after_parse_optional. Qed.
+Print Assumptions C06_explicit_emit_parse_optional.
+
+Theorem C06_explicit_emit_parse_oneof : forall sc c bs rs m g i f,
+  wf_schema sc = true -> std_builtins_b sc = true ->
+  is_records rs bs -> parse sc c bs = Ok m ->
+  nth_error (cfields (get_class sc c)) i = Some f ->
+  last_member (get_class sc c) g rs = Some i ->
+  which_one_of m g = Some i /\ emitted_in sc m i f.
+Proof. exact emit_after_parse_oneof. Qed.
+Print Assumptions C06_explicit_emit_parse_oneof.
+
+(* ---- a plain sub-message field is emitted exactly when serialized_on_wire(child) says so ----
+   for the direct child of the message being encoded; "flag consistent" = a child whose flag is down is a default message *)
+Theorem C06_submessage : forall sc c raw sow unk cur i f ch all,
+  wf_schema sc = true ->
+  nth_error (cfields (get_class sc c)) i = Some f -> nth_error raw i = Some (PMsg ch) ->
+  plain_msg_field f ->
+  enc_obj sc (Obj c raw sow unk cur) = Ok all ->
+  exists pre h post, all = pre ++ h ++ post /\ here sc cur i (PMsg ch) f = Ok h /\
+    (osow ch = true -> starts_with_tag (fnum f) 2 h) /\
+    (osow ch = false -> is_default sc f (PMsg ch) = true -> h = []) /\
+    ((osow ch = false -> is_default sc f (PMsg ch) = true) -> (h <> [] <-> osow ch = true)).
+Proof. exact submessage. Qed.
+Print Assumptions C06_submessage.
+
+(* the flag is consistent for every child built by the constructor, by assignment or by parse
+   (it was received: parse marks it; something was assigned inside it; or it is non-default) *)
+Theorem C06_flag_construct : forall sc c kw f,
+  wf_schema sc = true -> fhint f = HPlain (PyMsg c) ->
+  osow (construct sc c kw) = false -> is_default sc f (PMsg (construct sc c kw)) = true.
+Proof. exact construct_flag. Qed.
+Print Assumptions C06_flag_construct.
+
+Theorem C06_flag_setattr : forall sc o i v f,
+  nth_error (cfields (get_class sc (ocls o))) i = Some f -> osow (setattr sc o i v) = true.
+Proof. exact setattr_sow. Qed.
+Print Assumptions C06_flag_setattr.
+
+Theorem C06_flag_parse : forall sc c bs m, parse sc c bs = Ok m -> osow m = true.
+Proof. exact parse_sow. Qed.
+Print Assumptions C06_flag_parse.
+
+(* ---- after parse, an explicit-presence field is reported set exactly when a record that belongs to it occurs ---- *)
+(* proto3 optional and wrapper fields: `m.f is not None` (and Message.is_set for optional fields) *)
+Theorem C06_decode_presence_optional : forall sc c bs rs m j f,
+  wf_schema sc = true -> std_builtins_b sc = true ->
+  is_records rs bs -> parse sc c bs = Ok m ->
+  nth_error (cfields (get_class sc c)) j = Some f -> optional_like f ->
+  value_not_none sc m j = has_record f rs /\
+  (fopt f = true -> is_set sc m j = has_record f rs).
+Proof. exact decode_optional. Qed.
+Print Assumptions C06_decode_presence_optional.
+
+(* oneof groups: which_one_of is the LAST member that occurs *)
+Theorem C06_decode_presence_oneof : forall sc c bs rs m g,
+  wf_schema sc = true -> std_builtins_b sc = true ->
+  is_records rs bs -> parse sc c bs = Ok m ->
+  which_one_of m g = last_member (get_class sc c) g rs.
+Proof. exact decode_oneof. Qed.
+Print Assumptions C06_decode_presence_oneof.
+
+(* plain sub-message fields: serialized_on_wire(m.f) *)
+Theorem C06_decode_presence_submessage : forall sc c bs rs m j f,
+  wf_schema sc = true -> std_builtins_b sc = true ->
+  is_records rs bs -> parse sc c bs = Ok m ->
+  nth_error (cfields (get_class sc c)) j = Some f -> plain_msg f ->
+  child_on_wire m j = has_record f rs.
+Proof. exact decode_submessage. Qed.
+Print Assumptions C06_decode_presence_submessage.
+
+(* whatever the executable reader (the one the harness compares with google.protobuf) accepts is in the grammar *)
+Theorem C06_spec_reader_sound : forall bs rs, parse_records bs = Some rs -> is_records rs bs.
+Proof. exact parse_records_sound. Qed.
+Print Assumptions C06_spec_reader_sound.
+
+(* ---- K12 (known finding, class lazy-path): the flags of lazily created intermediates are never raised ---- *)
+(* m = Inner(); m.rec.rec.x = 0 : serialized_on_wire(m.rec.rec) is True yet bytes(m) is empty *)
+Theorem C06_lazy_path_refuted :
+  wf_schema k12_schema = true /\
+  exists m leaf, k12_after 0 = Ok m /\ descend k12_schema m [1%nat; 1%nat] = Ok leaf /\
+                 osow leaf = true /\ enc_obj k12_schema m = Ok [].
+Proof. exact lazy_path_default_witness. Qed.
+Print Assumptions C06_lazy_path_refuted.
+
+(* m.rec.rec.x = 5 : m.rec is emitted although serialized_on_wire(m.rec) is False (its flag is not consistent) *)
+Theorem C06_lazy_path_nondefault_refuted :
+  exists m child, k12_after 5 = Ok m /\ descend k12_schema m [1%nat] = Ok child /\
+                  osow child = false /\ child_on_wire m 1 = false /\
+                  enc_obj k12_schema m = Ok [x1a; x04; x1a; x02; x08; x05].
+Proof. exact lazy_path_nondefault_witness. Qed.
+Print Assumptions C06_lazy_path_nondefault_refuted.
+
+(* ---- non-vacuity ---- *)
+Definition ex_schema : schema :=
+  mkS (builtin_classes ++
+       [mkC [mkF [x78] 1 TInt32 None None None false (HPlain PyInt) 0;                       (* x: implicit *)
+             mkF [x6f] 2 TInt32 None None None true (HOptional PyInt) 0;                     (* o: proto3 optional *)
+             mkF [x61] 3 TString None (Some 0%nat) None false (HPlain PyStr) 0;              (* a: oneof g0 *)
+             mkF [x62] 4 TInt32 None (Some 0%nat) None false (HPlain PyInt) 0;               (* b: oneof g0 *)
+             mkF [x77] 5 TMessage None None (Some TInt32) false (HOptional PyInt) 0;         (* w: Int32Value *)
+             mkF [x73] 6 TMessage None None None false (HPlain (PyMsg 11)) 0] 1]) [].       (* s: sub-message *)
+
+Example C06_hypotheses_satisfiable : wf_schema ex_schema = true /\ std_builtins_b ex_schema = true.
+Proof. vm_compute. split; reflexivity. Qed.
+
+(* every explicit-presence field received with its DEFAULT value: all are reported set, b (the last member) wins *)
+Definition ex_bytes : list byte := [x10; x00; x1a; x00; x20; x00; x2a; x00; x32; x00].
+Example C06_decode_nonvacuous :
+  exists rs m, parse_records ex_bytes = Some rs /\ parse ex_schema 11 ex_bytes = Ok m /\
+    map (fun f => has_record f rs) (cfields (get_class ex_schema 11)) = [false; true; true; true; true; true] /\
+    value_not_none ex_schema m 1 = true /\ is_set ex_schema m 1 = true /\
+    which_one_of m 0 = Some 3%nat /\ last_member (get_class ex_schema 11) 0 rs = Some 3%nat /\
+    value_not_none ex_schema m 4 = true /\ child_on_wire m 5 = true /\
+    enc_obj ex_schema m = Ok [x10; x00; x20; x00; x2a; x00; x32; x00].
+Proof.
+  exists [mkR 2 0 0 []; mkR 3 2 0 []; mkR 4 0 0 []; mkR 5 2 0 []; mkR 6 2 0 []].
+  eexists. split; [vm_compute; reflexivity|]. split; [vm_compute; reflexivity|].
+  vm_compute. repeat split.
+Qed.
+
+(* nothing received: nothing is reported *)
+Example C06_decode_absent :
+  exists m, parse ex_schema 11 [] = Ok m /\ value_not_none ex_schema m 1 = false /\ which_one_of m 0 = None /\
+            value_not_none ex_schema m 4 = false /\ child_on_wire m 5 = false /\ enc_obj ex_schema m = Ok [].
+Proof. eexists. split; [vm_compute; reflexivity|]. vm_compute. repeat split. Qed.
+
+(* the four kinds set to their default by assignment, next to an implicit field holding 0 and a non-default one *)
+Example C06_emit_nonvacuous :
+  let o1 := setattr ex_schema (new ex_schema 11) 1 (PInt 0) in      (* o = 0 *)
+  let o2 := setattr ex_schema o1 2 (PStr []) in                      (* a = "" *)
+  let o3 := setattr ex_schema o2 4 (PInt 0) in                       (* w = 0 *)
+  let o4 := setattr ex_schema o3 0 (PInt 0) in                       (* x = 0: implicit, skipped *)
+  enc_obj ex_schema o4 = Ok [x10; x00; x1a; x00; x2a; x00] /\
+  explicit_field (nth 1 (cfields (get_class ex_schema 11)) (plain_field [] 0 TBool)) /\
+  implicit_field (nth 0 (cfields (get_class ex_schema 11)) (plain_field [] 0 TBool)) /\
+  is_default ex_schema (nth 0 (cfields (get_class ex_schema 11)) (plain_field [] 0 TBool)) (PInt 0) = true.
+Proof.
+  cbv zeta. split; [vm_compute; reflexivity|]. split; [left; split; [reflexivity|left; reflexivity]|].
+  split; [|reflexivity]. split; [reflexivity|]. split; [reflexivity|]. exists PyInt. split; [reflexivity|discriminate].
+Qed.
